@@ -38,8 +38,8 @@ Definition subs_cfg : config :=
    the repair startRunnable stored the initial state silently and the subscriber never learnt the
    new entry; now startRunnable broadcasts the map. *)
 Definition subs_sched : list label :=
-  [LLaunch 0; LRunCall 0; LMonSub 0; LMonRecv 0; LSubscribe 7; LSubDo 7; LSubRecv 7 [Some 0; None];
-   LPoll 0 true; LGateDecide 0; LLaunch 1; LRunCall 1; LMonSub 1; LMonRecv 1; LPoll 1 true; LGateDecide 1;
+  [LLaunch 0; LRunStore 0; LRunCall 0; LMonSub 0; LMonRecv 0; LSubscribe 7; LSubDo 7; LSubRecv 7 [Some 0; None];
+   LPoll 0 true; LGateDecide 0; LLaunch 1; LRunStore 1; LRunCall 1; LMonSub 1; LMonRecv 1; LPoll 1 true; LGateDecide 1;
    LQuiet].
 
 Lemma subs_sched_delivers :
@@ -136,9 +136,7 @@ Record Track (s : state) (c0 : nat) : Prop := {
    exited, c0 is not unsubscribed *)
 Definition ok_label (c : config) (c0 : nat) (s : state) (l : label) : Prop :=
   match l with
-  | LMonBcast _ => forall b, find_sub c0 (subs s) = Some b -> length (sub_buf b) < 10
-  | LRunCall i =>
-    stateable (spec c i) = true -> forall b, find_sub c0 (subs s) = Some b -> length (sub_buf b) < 10
+  | LMonBcast _ | LRunStore _ => forall b, find_sub c0 (subs s) = Some b -> length (sub_buf b) < 10
   | LStopRet i | LReloadRet i =>
     stateable (spec c i) = true -> smap_at s i = Some (cur_at s i)
   | LStmExit => False
@@ -263,13 +261,13 @@ Proof.
 Qed.
 
 (* startRunnable stores the initial state and broadcasts the new map *)
-Lemma Track_store_bcast s s' c0 i v e :
-  i < length (smap s) -> smap s' = upd (smap s) i (Some v) -> mon s' = mon s -> hist s' = e :: hist s ->
+Lemma Track_store_bcast s s' c0 i v :
+  i < length (smap s) -> smap s' = upd (smap s) i (Some v) -> mon s' = mon s ->
   subs s' = broadcast (upd (smap s) i (Some v)) (subs s) ->
   (forall b, find_sub c0 (subs s) = Some b -> length (sub_buf b) < 10) ->
   Track s c0 -> Track s' c0.
 Proof.
-  intros Li Em Eo Eh Es Hroom [(b & Hb & Hr & Hst) Tl].
+  intros Li Em Eo Es Hroom [(b & Hb & Hr & Hst) Tl].
   pose proof (Hroom b Hb) as Hlt. apply Nat.ltb_lt in Hlt.
   set (m := upd (smap s) i (Some v)) in *.
   assert (Hm : existsb (fun o => match o with Some _ => true | None => false end) m = true).
@@ -302,9 +300,10 @@ Proof.
   all: try (apply (Track_frame s); [reflexivity|reflexivity|reflexivity|hist_nr|exact T]; fail).
   (* startRunnable / Shutdown / reload manager store a state: by assumption the map does not change *)
   all: cbn [ok_label] in Hok.
-  all: try (match goal with E : (_ <? nrun _) = true |- _ => apply Nat.ltb_lt in E end;
-            eapply (Track_store_bcast s); [|reflexivity|reflexivity|reflexivity|reflexivity| |exact T];
-            [rewrite Lsmap; assumption|apply Hok; assumption]).
+  all: try (match goal with E : (_ <? nrun _) && _ = true |- _ =>
+              apply andb_true_iff in E as [E ?]; apply Nat.ltb_lt in E end;
+            eapply (Track_store_bcast s); [|reflexivity|reflexivity|reflexivity|exact Hok|exact T];
+            rewrite Lsmap; assumption).
   all: try (apply (Track_frame s); [reflexivity| |reflexivity|hist_nr|exact T]; simp_st;
             unfold cur_at; simp_st;
             match goal with E : stateable _ = true |- _ => pose proof (Hok E) as X end;
